@@ -41,6 +41,7 @@ for name, fn, args in jobs:
 
 tot = [0, 0]
 never = []
+done = set()
 for s in common.SRCS:
     r = subprocess.run(['gcov', '-f', '-o', bdir, os.path.join(common.REPO, s)], capture_output=True, text=True, cwd=bdir)
     fn = None
@@ -56,11 +57,14 @@ for s in common.SRCS:
             continue
         m = re.match(r'Lines executed:([\d.]+)% of (\d+)', line)
         if m:
+            if not fn and s in done:
+                continue
             if fn:
                 if float(m.group(1)) == 0:
                     never.append('%s:%s(%s lines)' % (s, fn, m.group(2)))
                 fn = None
             elif cur.endswith(s):
+                done.add(s)
                 print('%-10s %6s%% of %s lines' % (s, m.group(1), m.group(2)))
                 tot[0] += float(m.group(1)) * int(m.group(2)) / 100
                 tot[1] += int(m.group(2))
